@@ -61,4 +61,16 @@ var checks = map[string]check{
 			"a watchdog expiry (20 s after the last gate) is reported only if a second run also expires or the first run is still blocked after the second run finished",
 			"schedule-dependent failures may not reproduce on replay; orderings inside the Go runtime are perturbed, not enumerated"},
 	},
+	"C14": {
+		ID: "C14", Pkg: "c14",
+		Jobs: []job{
+			{Run: "^TestMask$", Quick: 5000, QShards: 6, Thor: 100000, TShards: 14},
+			{Run: "^TestSoup$", Quick: 4000, QShards: 4, Thor: 40000, TShards: 14},
+			{Run: "^TestJSON$", Quick: 4000, QShards: 4, Thor: 40000, TShards: 14},
+			{Run: "^TestReferenceOnRepoVectors$", Quick: 1, QShards: 1, Thor: 1, TShards: 1},
+		},
+		Fuzz:   []fuzzJob{{Target: "FuzzPath", Dur: "240s"}, {Target: "FuzzMaskJSON", Dur: "240s"}},
+		Rule:   "type descriptors from generated IDL schemas (all container/key kinds, negative and >63 field ids, typedefs, enums as keys) x path lists from a path grammar (valid, conflicting and invalid-by-construction classes) and byte soup over the path alphabet x white/black list x query sequences; JSON documents from mutated real marshals and soup; non-trivial = >=3 paths, >=1 of depth >=3, mixing two of {field, index, key, *}, distinct by IDL + path list + mode",
+		Assume: []string{"exact answers are asserted only for conflict-free valid path sets; black-list sets with a path ending in '*' and struct '.*' get the no-panic / stability / round-trip oracles only", "nothing is asserted after the first 'not selected' step of a query", "mutated JSON input: only no-panic, UnmarshalJSON == caching Unmarshal, and marshal stability are asserted"},
+	},
 }
